@@ -18,10 +18,11 @@ const (
 	SRecv
 	SReturn
 	SRange
+	SUse // synthetic: a read of a variable (built on demand, not part of CollectSites)
 )
 
 func (k SiteKind) String() string {
-	return [...]string{"call", "store", "send", "recv", "return", "range"}[k]
+	return [...]string{"call", "store", "send", "recv", "return", "range", "use"}[k]
 }
 
 // Site is one event inside a function: a call, a store, a channel operation, a return.
@@ -52,6 +53,54 @@ type Site struct {
 	Rng  *ast.RangeStmt
 
 	Ctx *F // raw short-circuit context inside a condition
+
+	Use     *ast.Ident // SUse: the identifier
+	Parents []ast.Node // SUse: enclosing nodes inside the statement, outermost first
+}
+
+// VarUses lists the reads of a variable in the graph (assignments to it and function literals are
+// not included), as synthetic sites ordered like real ones.
+func VarUses(g *Graph, info *types.Info, obj types.Object) []*Site {
+	var out []*Site
+	for _, b := range g.Blocks {
+		for i, n := range b.Nodes {
+			var stack []ast.Node
+			root := ast.Node(n)
+			if rh, ok := n.(*RangeHead); ok {
+				root = rh.Stmt.X
+			}
+			ast.Inspect(root, func(c ast.Node) bool {
+				if c == nil {
+					stack = stack[:len(stack)-1]
+					return true
+				}
+				if _, ok := c.(*ast.FuncLit); ok {
+					return false
+				}
+				if id, ok := c.(*ast.Ident); ok && info.Uses[id] == obj {
+					isLHS := false
+					if len(stack) > 0 {
+						switch p := stack[len(stack)-1].(type) {
+						case *ast.AssignStmt:
+							for _, l := range p.Lhs {
+								if l == ast.Expr(id) {
+									isLHS = true
+								}
+							}
+						}
+					}
+					if !isLHS {
+						ps := make([]ast.Node, len(stack))
+						copy(ps, stack)
+						out = append(out, &Site{Kind: SUse, Block: b, NodeIdx: i, Pos: id.Pos(), ord: id.Pos(), Use: id, Parents: ps, Ctx: True()})
+					}
+				}
+				stack = append(stack, c)
+				return true
+			})
+		}
+	}
+	return out
 }
 
 // Before reports whether a is evaluated before b on every path containing both, within straight-line
